@@ -531,7 +531,7 @@ def check(run):
     langs = tuple(os.environ.get("C04_LANGS", ",".join(LANGS)).split(","))
     if run.tier == "quick":
         specs += make_specs(run, int(os.environ.get("C04_N", "100")), langs=langs, cap=40)
-        run_all(run, specs, budget_s=int(os.environ.get("C04_BUDGET", "115")))
+        run_all(run, specs, budget_s=int(os.environ.get("C04_BUDGET", "90")))
     else:
         specs += make_specs(run, int(os.environ.get("C04_N", "4000")), langs=langs, cap=60)
         run_all(run, specs, budget_s=int(os.environ.get("C04_BUDGET", "1300")))
